@@ -68,6 +68,82 @@ def _shift_term_blocks(t, NB):
     return t
 
 
+def _writes(F, l):
+    """statements / calls of F that write (part of) local l"""
+    out = []
+    for blk in F["blocks"]:
+        for st in blk["stmts"]:
+            if st.get("k") == "assign" and st["p"]["l"] == l:
+                out.append(st)
+        t = blk["term"]
+        if t.get("k") == "call" and t.get("dest", {}).get("l") == l:
+            out.append(t)
+    return out
+
+
+def _sole_def(F, l):
+    w = _writes(F, l)
+    if len(w) == 1 and w[0].get("k") == "assign" and not w[0]["p"].get("pr"):
+        return w[0]["r"]
+    return None
+
+
+def _addr_taken_mut(F, l):
+    for blk in F["blocks"]:
+        for st in blk["stmts"]:
+            r = st.get("r", {})
+            if r.get("k") in ("ref", "rawptr") and r.get("p", {}).get("l") == l and r.get("bk") != "shared":
+                return True
+    return False
+
+
+def _captures(F, env_op, nargs):
+    """operands the closure was created with, if the environment operand of a direct closure call leads (through at most a
+    shared reference) to a local that is assigned once, by the closure expression, and whose captured operands are themselves
+    fixed (constants, or locals assigned once and never mutably borrowed): [(by_ref, operands)] else None"""
+    p = env_op.get("p")
+    if p is None or p.get("pr"):
+        return None
+    r = _sole_def(F, p["l"])
+    by_ref = False
+    if r is not None and r.get("k") == "ref" and r.get("bk") == "shared" and not r["p"].get("pr"):
+        by_ref = True
+        r = _sole_def(F, r["p"]["l"])
+    if r is None or r.get("k") != "agg" or r.get("ak") != "closure":
+        return None
+    ops = r.get("ops", [])
+    for o in ops:
+        if o.get("k") == "const":
+            continue
+        q = o.get("p")
+        if q is None or q.get("pr"):
+            return None
+        if len(_writes(F, q["l"])) != 1 or _addr_taken_mut(F, q["l"]):
+            return None
+    return by_ref, ops
+
+
+def _subst_env(node, env_local, by_ref, ops):
+    """replace `(*env).i…` (or `env.i…`) by the captured operand's place"""
+    if isinstance(node, dict):
+        if "l" in node and isinstance(node["l"], int) and set(node) <= {"l", "pr"}:
+            pr = node.get("pr", [])
+            need = (["*"] if by_ref else [])
+            if node["l"] == env_local and len(pr) > len(need) and pr[:len(need)] == need and isinstance(pr[len(need)], dict) and "f" in pr[len(need)]:
+                i = pr[len(need)]["f"]
+                if i < len(ops) and ops[i].get("p") is not None:
+                    q = dict(ops[i]["p"])
+                    q["pr"] = list(q.get("pr", [])) + list(pr[len(need) + 1:])
+                    if not q["pr"]:
+                        q.pop("pr")
+                    return q
+            return node
+        return {k: _subst_env(v, env_local, by_ref, ops) for k, v in node.items()}
+    if isinstance(node, list):
+        return [_subst_env(v, env_local, by_ref, ops) for v in node]
+    return node
+
+
 def _inline_at(F, b, g):
     term = F["blocks"][b]["term"]
     L = len(F["locals"])
@@ -85,13 +161,24 @@ def _inline_at(F, b, g):
         # direct call of a closure: (environment, tuple of arguments); the body takes the tuple's fields as separate parameters
         pre.append({"k": "assign", "p": {"l": L + 1}, "r": {"k": "use", "a": term["args"][0]}, "sp": sp, "inl": True})
         tup = term["args"][1]
+        # `f(a, b)` is lowered to `tmp = (a, b); call(f, tmp)`: hand a and b over directly when that is what tmp is
+        tdef = _sole_def(F, tup["p"]["l"]) if tup.get("p") is not None and not tup["p"].get("pr") else None
+        tops = tdef.get("ops") if tdef is not None and tdef.get("k") == "agg" and tdef.get("ak") == "tuple" else None
         for i in range(g["arg_count"] - 1):
             if tup.get("p") is None:
                 break
+            if tops is not None and i < len(tops) and (tops[i].get("k") == "const" or tops[i].get("p") is not None):
+                a = dict(tops[i])
+                if a.get("k") == "move":
+                    a["k"] = "copy"
+                pre.append({"k": "assign", "p": {"l": L + 2 + i}, "r": {"k": "use", "a": a}, "sp": sp, "inl": True})
+                continue
             pl = dict(tup["p"])
             pl["pr"] = list(pl.get("pr", [])) + [{"f": i, "n": str(i)}]
             pre.append({"k": "assign", "p": {"l": L + 2 + i}, "r": {"k": "use", "a": {"k": "copy", "p": pl}}, "sp": sp, "inl": True})
+        caps = _captures(F, term["args"][0], g["arg_count"])
     else:
+        caps = None
         for i, a in enumerate(term["args"]):
             pre.append({"k": "assign", "p": {"l": L + 1 + i}, "r": {"k": "use", "a": a}, "sp": sp, "inl": True})
     dest, cont, unwind = term["dest"], term.get("t"), term.get("unwind")
@@ -107,6 +194,9 @@ def _inline_at(F, b, g):
         elif t["k"] == "resume" and isinstance(unwind, int):
             t = {"k": "goto", "t": unwind}
         nb["term"] = t
+        if caps is not None:
+            # what the closure captured is written where the body reads its environment, as if the body stood at the call
+            nb = _subst_env(nb, L + 1, caps[0], caps[1])
         F["blocks"].append(nb)
 
 
@@ -172,6 +262,57 @@ def new_functions(fns, ref):
     return out
 
 
+def _closure_escapes(F, g):
+    """is the closure g, created in F, used as anything but the callee of (now inlined) direct calls? It escapes when it (or a
+    reference / copy of it) is passed to a call, stored in an aggregate, cast, or returned; reading a captured field is no escape"""
+    A = set()
+    for blk in F["blocks"]:
+        for st in blk["stmts"]:
+            r = st.get("r", {})
+            if st.get("k") == "assign" and r.get("k") == "agg" and r.get("ak") == "closure" and r.get("closure") == g:
+                if st["p"].get("pr"):
+                    return True
+                A.add(st["p"]["l"])
+    if not A:
+        return False
+
+    def whole(p):
+        return p is not None and p["l"] in A and not any(isinstance(e, dict) for e in p.get("pr", []))
+
+    grew = True
+    while grew:
+        grew = False
+        for blk in F["blocks"]:
+            for st in blk["stmts"]:
+                if st.get("k") != "assign":
+                    continue
+                r = st["r"]
+                src = r.get("p") if r.get("k") in ("ref", "rawptr") else (r.get("a", {}).get("p") if r.get("k") == "use" else None)
+                if whole(src) and not st["p"].get("pr") and st["p"]["l"] not in A:
+                    if st["p"]["l"] == 0:
+                        return True
+                    A.add(st["p"]["l"])
+                    grew = True
+    for blk in F["blocks"]:
+        for st in blk["stmts"]:
+            if st.get("k") != "assign":
+                continue
+            r = st["r"]
+            if r.get("k") in ("ref", "rawptr", "use") and not st["p"].get("pr"):
+                continue          # the alias-forming statements followed above
+            ops = list(r.get("ops", [])) + [r[x] for x in ("a", "b") if isinstance(r.get(x), dict)]
+            if any(whole(o.get("p")) for o in ops):
+                return True
+        t = blk["term"]
+        if t.get("k") == "call":
+            if any(whole(a.get("p")) for a in t.get("args", [])):
+                return True
+            fp = t.get("f", {}).get("p")
+            if whole(fp):
+                return True
+    return False
+
+
 def inline_new(dicts):
     """dicts: parsed fact files (lib, bin), modified in place. Returns {new function: number of call sites inlined}."""
     if not os.path.exists(alias.ANCHORS):
@@ -216,7 +357,12 @@ def inline_new(dicts):
                     still = True
         if still:
             continue
-        if any(_mentions(F["blocks"], g) for name, F in fns.items() if name != g):
+        if fns.get(g, {}).get("defkind") == "Closure":
+            parent = g.split("::{closure", 1)[0]
+            users = [name for name, F in fns.items() if name != g and _mentions(F["blocks"], g)]
+            if any(name != parent for name in users) or (parent in fns and _closure_escapes(fns[parent], g)):
+                continue          # handed to someone who may call it
+        elif any(_mentions(F["blocks"], g) for name, F in fns.items() if name != g):
             continue          # still referenced as a value (fn item, reified pointer, closure argument)
         for d in dicts:
             d["fns"].pop(g, None)
